@@ -620,56 +620,6 @@ Proof.
   - apply LR_leaf; auto.
 Qed.
 
-(* what instantiation does to one argument value: every symbolic leaf VSym t, at any depth, becomes the number
-   obtained by substitution, provided all its parameters have a value *)
-Definition inst_rel (sg:list (str * term)) : value -> value -> Prop :=
-  lift_rel (fun t v' => all_in (term_pars t) (map fst sg) = true /\ v' = VFlt (subst_term sg t)).
-
-Lemma inst_value_rel sg v v' : inst_value sg v = Ok v' <-> inst_rel sg v v'.
-Proof.
-  revert v v'. apply (@value_ind_nested (fun v => forall v', inst_value sg v = Ok v' <-> inst_rel sg v v')).
-  intros v IH v'. rewrite Forall_forall in IH.
-  destruct v; simpl in IH;
-    try (simpl; split; intro H; [inversion H; subst; apply LR_leaf; exact I|inversion H; subst; reflexivity]).
-  - (* VSym *) simpl. destruct (all_in (term_pars t) (map fst sg)) eqn:A; split; intro H.
-    + inversion H; subst. apply LR_sym; auto.
-    + inversion H; subst; [|contradiction]. destruct H1 as [_ ->]. reflexivity.
-    + discriminate.
-    + inversion H; subst; [|contradiction]. destruct H1; congruence.
-  - (* VArr *) rewrite inst_value_VArr. split; intro H.
-    + binv H. inversion H; subst. apply LR_arr. apply mapM_Forall2 in E.
-      eapply Forall2_imp_In; [|exact E]. intros a b Ha Hab. apply IH; auto.
-    + inversion H; subst; [|contradiction].
-      erewrite Forall2_mapM; [reflexivity|].
-      eapply Forall2_imp_In; [|eassumption]. intros a b Ha Hab. apply IH; auto.
-  - (* VList *) rewrite inst_value_VList. split; intro H.
-    + binv H. inversion H; subst. apply LR_list. apply mapM_Forall2 in E.
-      eapply Forall2_imp_In; [|exact E]. intros a b Ha Hab. apply IH; auto.
-    + inversion H; subst; [|contradiction].
-      erewrite Forall2_mapM; [reflexivity|].
-      eapply Forall2_imp_In; [|eassumption]. intros a b Ha Hab. apply IH; auto.
-Qed.
-
-Definition inst_op_rel (R:value -> value -> Prop) (o o':op) : Prop :=
-  oname o' = oname o /\ omodes o' = omodes o /\
-  match oargs o with
-  | None => oargs o' = None
-  | Some (ps, kws) =>
-      exists ps' kws', oargs o' = Some (ps', kws') /\ Forall2 R ps ps' /\
-                       Forall2 (fun kv kv' => fst kv' = fst kv /\ R (snd kv) (snd kv')) kws kws'
-  end.
-
-Lemma inst_op_ok sg o o' : inst_op sg o = Ok o' -> inst_op_rel (inst_rel sg) o o'.
-Proof.
-  unfold inst_op, inst_op_rel. destruct (oargs o) as [[ps kws]|] eqn:A; intro H.
-  - binv H. binv H. inversion H; subst; simpl. repeat split; auto.
-    exists x, x0. repeat split; auto.
-    + apply mapM_Forall2 in E. eapply Forall2_imp; [|exact E]. intros a b Hab. apply inst_value_rel; auto.
-    + apply mapM_Forall2 in E0. eapply Forall2_imp; [|exact E0]. intros a b Hab. cbv beta in Hab.
-      binv Hab. inversion Hab; subst; simpl. split; auto. apply inst_value_rel; auto.
-  - inversion H; subst. rewrite A. auto.
-Qed.
-
 Lemma mem_str_lookup A p (sg:list (str * A)) :
   mem_str p (map fst sg) = true -> exists u, lookup p sg = Some u /\ In (p, u) sg.
 Proof.
@@ -692,6 +642,174 @@ Proof.
   rewrite L. eauto.
 Qed.
 
+(* substitutions whose values are numeric (contain no parameter): the case of a top-level instantiation *)
+Definition closed_sg (sg:list (str * term)) : bool :=
+  forallb (fun kv => match term_pars (snd kv) with [] => true | _ => false end) sg.
+
+Lemma closed_sg_spec sg : closed_sg sg = true <-> (forall k u, In (k, u) sg -> term_pars u = []).
+Proof.
+  unfold closed_sg. rewrite forallb_forall. split.
+  - intros H k u Hin. specialize (H _ Hin). simpl in H. destruct (term_pars u); [reflexivity|discriminate].
+  - intros H [k u] Hin. simpl. rewrite (H _ _ Hin). reflexivity.
+Qed.
+
+Lemma close_kind_cases t :
+  (term_pars t = [] /\ close_kind t = VFlt t) \/ (term_pars t <> [] /\ close_kind t = VSym t).
+Proof. unfold close_kind. destruct (term_pars t); [left; auto|right; split; [discriminate|reflexivity]]. Qed.
+
+Lemma close_kind_nopars t : term_pars t = [] -> close_kind t = VFlt t.
+Proof. unfold close_kind. intros ->. reflexivity. Qed.
+
+(* binding every parameter of t to numeric values yields a number *)
+Lemma close_kind_closed sg t :
+  (forall k u, In (k, u) sg -> term_pars u = []) ->
+  all_in (term_pars t) (map fst sg) = true -> close_kind (subst_term sg t) = VFlt (subst_term sg t).
+Proof. intros Hsg H. apply close_kind_nopars. apply subst_term_closed; auto. Qed.
+
+Lemma close_kind_closed_sg sg t :
+  closed_sg sg = true ->
+  all_in (term_pars t) (map fst sg) = true -> close_kind (subst_term sg t) = VFlt (subst_term sg t).
+Proof. intro Hsg. apply close_kind_closed. apply closed_sg_spec; exact Hsg. Qed.
+
+(* simultaneous substitution composes: binding the parameters of an inner template to (possibly symbolic) values
+   sg1 and then binding the outer parameters by sg2 equals binding the inner parameters directly to the values
+   already bound by sg2.  (Sequential replacement, as sympy's subs would do, differs when a value of sg1 mentions
+   a parameter that is also a key of sg1.) *)
+Lemma lookup_map_snd A B (f:A -> B) p (sg:list (str * A)) :
+  lookup p (map (fun kv => (fst kv, f (snd kv))) sg) = option_map f (lookup p sg).
+Proof.
+  induction sg as [|[k u] sg IH]; simpl; [reflexivity|].
+  destruct (str_eqb p k); [reflexivity|exact IH].
+Qed.
+
+Theorem subst_term_compose sg1 sg2 t :
+  all_in (term_pars t) (map fst sg1) = true ->
+  subst_term sg2 (subst_term sg1 t) = subst_term (map (fun kv => (fst kv, subst_term sg2 (snd kv))) sg1) t.
+Proof.
+  induction t; simpl; intro H; auto;
+    try (rewrite all_in_app in H; apply andb_true_iff in H; destruct H as [H1 H2];
+         rewrite (IHt1 H1), (IHt2 H2); reflexivity);
+    try (rewrite (IHt H); reflexivity).
+  apply andb_true_iff in H. destruct H as [H _]. apply mem_str_lookup in H. destruct H as [u [L I]].
+  rewrite lookup_map_snd, L. reflexivity.
+Qed.
+
+(* what instantiation does to one argument value: every symbolic leaf VSym t, at any depth, becomes the value
+   obtained by substitution, provided all its parameters have a value: a number when no parameter is left, still
+   symbolic when the values themselves mention parameters (close_kind) *)
+Definition inst_rel (sg:list (str * term)) : value -> value -> Prop :=
+  lift_rel (fun t v' => all_in (term_pars t) (map fst sg) = true /\ v' = close_kind (subst_term sg t)).
+
+(* the same with numeric values: every symbolic leaf becomes the number obtained by substitution *)
+Definition inst_rel_num (sg:list (str * term)) : value -> value -> Prop :=
+  lift_rel (fun t v' => all_in (term_pars t) (map fst sg) = true /\ v' = VFlt (subst_term sg t)).
+
+Lemma inst_rel_num_iff sg v v' :
+  (forall k u, In (k, u) sg -> term_pars u = []) -> (inst_rel sg v v' <-> inst_rel_num sg v v').
+Proof.
+  intro Hsg. split; apply lift_rel_impl; intros t w [H1 H2]; split; auto.
+  - rewrite H2. apply close_kind_closed; auto.
+  - rewrite H2. symmetry. apply close_kind_closed; auto.
+Qed.
+
+Lemma inst_value_rel sg v v' : inst_value sg v = Ok v' <-> inst_rel sg v v'.
+Proof.
+  revert v v'. apply (@value_ind_nested (fun v => forall v', inst_value sg v = Ok v' <-> inst_rel sg v v')).
+  intros v IH v'. rewrite Forall_forall in IH.
+  destruct v; simpl in IH;
+    try (simpl; split; intro H; [inversion H; subst; apply LR_leaf; exact I|inversion H; subst; reflexivity]).
+  - (* VSym *) simpl. destruct (all_in (term_pars t) (map fst sg)) eqn:A; split; intro H.
+    + inversion H; subst. apply LR_sym; auto.
+    + inversion H; subst; [|contradiction].
+      match goal with HS : _ /\ _ = close_kind _ |- _ => destruct HS as [_ ->] end. reflexivity.
+    + discriminate.
+    + inversion H; subst; [|contradiction]. destruct H1; congruence.
+  - (* VArr *) rewrite inst_value_VArr. split; intro H.
+    + binv H. inversion H; subst. apply LR_arr. apply mapM_Forall2 in E.
+      eapply Forall2_imp_In; [|exact E]. intros a b Ha Hab. apply IH; auto.
+    + inversion H; subst; [|contradiction].
+      erewrite Forall2_mapM; [reflexivity|].
+      eapply Forall2_imp_In; [|eassumption]. intros a b Ha Hab. apply IH; auto.
+  - (* VList *) rewrite inst_value_VList. split; intro H.
+    + binv H. inversion H; subst. apply LR_list. apply mapM_Forall2 in E.
+      eapply Forall2_imp_In; [|exact E]. intros a b Ha Hab. apply IH; auto.
+    + inversion H; subst; [|contradiction].
+      erewrite Forall2_mapM; [reflexivity|].
+      eapply Forall2_imp_In; [|eassumption]. intros a b Ha Hab. apply IH; auto.
+Qed.
+
+(* instantiation with numeric values: the relation at its former strength *)
+Theorem inst_value_rel_num sg v v' :
+  (forall k u, In (k, u) sg -> term_pars u = []) -> (inst_value sg v = Ok v' <-> inst_rel_num sg v v').
+Proof. intro Hsg. rewrite inst_value_rel. apply inst_rel_num_iff; exact Hsg. Qed.
+
+(* nested includes: instantiating with (possibly symbolic) values sg1 and then instantiating the result with sg2
+   is one instantiation with the values of sg1 already bound by sg2 *)
+Lemma subst_term_nopars sg t : term_pars t = [] -> subst_term sg t = t.
+Proof.
+  induction t; simpl; intro H; try discriminate; auto;
+    try (apply app_eq_nil in H; destruct H as [Ha Hb]; rewrite (IHt1 Ha), (IHt2 Hb); reflexivity);
+    try (rewrite (IHt H); reflexivity).
+Qed.
+
+Lemma mapM_compose_In A B C (f:A -> outcome B) (g:B -> outcome C) (h:A -> outcome C) l : forall r r',
+  (forall a b c, In a l -> f a = Ok b -> g b = Ok c -> h a = Ok c) ->
+  mapM f l = Ok r -> mapM g r = Ok r' -> mapM h l = Ok r'.
+Proof.
+  induction l as [|a l IH]; simpl; intros r r' Hh H1 H2.
+  - inversion H1; subst. simpl in H2. exact H2.
+  - binv H1. binv H1. inversion H1; subst. simpl in H2. binv H2. binv H2. inversion H2; subst.
+    rewrite (Hh a x x1 (or_introl eq_refl) E E1). simpl.
+    rewrite (IH x0 x2); [reflexivity| |exact E0|exact E2].
+    intros a0 b0 c0 Ha0. apply Hh. right. exact Ha0.
+Qed.
+
+Theorem inst_value_compose sg1 sg2 v : forall v1 v2,
+  inst_value sg1 v = Ok v1 -> inst_value sg2 v1 = Ok v2 ->
+  inst_value (map (fun kv => (fst kv, subst_term sg2 (snd kv))) sg1) v = Ok v2.
+Proof.
+  revert v.
+  apply (@value_ind_nested (fun v => forall v1 v2, inst_value sg1 v = Ok v1 -> inst_value sg2 v1 = Ok v2 ->
+           inst_value (map (fun kv => (fst kv, subst_term sg2 (snd kv))) sg1) v = Ok v2)).
+  intros v IH v1 v2 H1 H2. rewrite Forall_forall in IH.
+  destruct v; simpl in IH;
+    try (simpl in H1; inversion H1; subst v1; simpl in H2; simpl; exact H2).
+  - (* VSym *) simpl in H1. destruct (all_in (term_pars t) (map fst sg1)) eqn:A; [|discriminate].
+    inversion H1; subst v1. simpl.
+    assert (M: map fst (map (fun kv : str * term => (fst kv, subst_term sg2 (snd kv))) sg1) = map fst sg1).
+    { rewrite map_map. apply map_ext. reflexivity. }
+    rewrite M, A. rewrite <- (subst_term_compose sg2 A).
+    destruct (close_kind_cases (subst_term sg1 t)) as [[C K]|[C K]]; rewrite K in H2; simpl in H2.
+    + inversion H2; subst v2. rewrite (subst_term_nopars sg2 C), K. reflexivity.
+    + destruct (all_in (term_pars (subst_term sg1 t)) (map fst sg2)); [exact H2|discriminate].
+  - (* VArr *) rewrite inst_value_VArr in H1. binv H1. inversion H1; subst v1.
+    rewrite inst_value_VArr in H2. binv H2. inversion H2; subst v2.
+    rewrite inst_value_VArr. rewrite (mapM_compose_In (h:=inst_value _) (fun a b c Ha => IH a Ha b c) E E0). reflexivity.
+  - (* VList *) rewrite inst_value_VList in H1. binv H1. inversion H1; subst v1.
+    rewrite inst_value_VList in H2. binv H2. inversion H2; subst v2.
+    rewrite inst_value_VList. rewrite (mapM_compose_In (h:=inst_value _) (fun a b c Ha => IH a Ha b c) E E0). reflexivity.
+Qed.
+
+Definition inst_op_rel (R:value -> value -> Prop) (o o':op) : Prop :=
+  oname o' = oname o /\ omodes o' = omodes o /\
+  match oargs o with
+  | None => oargs o' = None
+  | Some (ps, kws) =>
+      exists ps' kws', oargs o' = Some (ps', kws') /\ Forall2 R ps ps' /\
+                       Forall2 (fun kv kv' => fst kv' = fst kv /\ R (snd kv) (snd kv')) kws kws'
+  end.
+
+Lemma inst_op_ok sg o o' : inst_op sg o = Ok o' -> inst_op_rel (inst_rel sg) o o'.
+Proof.
+  unfold inst_op, inst_op_rel. destruct (oargs o) as [[ps kws]|] eqn:A; intro H.
+  - binv H. binv H. inversion H; subst; simpl. repeat split; auto.
+    exists x, x0. repeat split; auto.
+    + apply mapM_Forall2 in E. eapply Forall2_imp; [|exact E]. intros a b Hab. apply inst_value_rel; auto.
+    + apply mapM_Forall2 in E0. eapply Forall2_imp; [|exact E0]. intros a b Hab. cbv beta in Hab.
+      binv Hab. inversion Hab; subst; simpl. split; auto. apply inst_value_rel; auto.
+  - inversion H; subst. rewrite A. auto.
+Qed.
+
 (* the relation once the substituted values are parameter-free: a symbolic leaf, at any depth, becomes a closed number *)
 Definition inst_rel_closed (sg:list (str * term)) : value -> value -> Prop :=
   lift_rel (fun t v' => v' = VFlt (subst_term sg t) /\ term_pars (subst_term sg t) = []).
@@ -699,7 +817,9 @@ Definition inst_rel_closed (sg:list (str * term)) : value -> value -> Prop :=
 Lemma inst_rel_to_closed sg v v' :
   (forall k u, In (k, u) sg -> term_pars u = []) -> inst_rel sg v v' -> inst_rel_closed sg v v'.
 Proof.
-  intro Hsg. apply lift_rel_impl. intros t w [H1 H2]. split; auto. apply subst_term_closed; auto.
+  intro Hsg. apply lift_rel_impl. intros t w [H1 H2]. split.
+  - rewrite H2. apply close_kind_closed; auto.
+  - apply subst_term_closed; auto.
 Qed.
 
 Lemma inst_op_rel_impl (R1 R2:value -> value -> Prop) o o' :
@@ -727,6 +847,24 @@ Proof.
   intro H. apply instantiate_inv in H. destruct H as (_ & _ & H & _).
   apply mapM_Forall2 in H. eapply Forall2_imp; [|exact H]. intros a b Hab. cbv beta in Hab.
   rewrite inst_elem_eq in Hab. binv Hab. inversion Hab; subst; simpl. split; auto. apply inst_value_rel; auto.
+Qed.
+
+(* with numeric values the two theorems above hold at their former strength (every symbolic leaf becomes a number) *)
+Theorem inst_ops_rel_num sg p q :
+  (forall k u, In (k, u) sg -> term_pars u = []) ->
+  instantiate sg p = Ok q -> Forall2 (inst_op_rel (inst_rel_num sg)) (p_ops p) (p_ops q).
+Proof.
+  intros Hsg H. apply inst_ops_rel in H. eapply Forall2_imp; [|exact H].
+  intros a b. apply inst_op_rel_impl. intros x y Hxy. apply (inst_rel_num_iff x y Hsg). exact Hxy.
+Qed.
+
+Theorem inst_vars_rel_num sg p q :
+  (forall k u, In (k, u) sg -> term_pars u = []) ->
+  instantiate sg p = Ok q ->
+  Forall2 (fun kv kv' => fst kv' = fst kv /\ inst_rel_num sg (snd kv) (snd kv')) (p_vars p) (p_vars q).
+Proof.
+  intros Hsg H. apply inst_vars_rel in H. eapply Forall2_imp; [|exact H].
+  intros a b [Hk Hr]. split; [exact Hk|]. apply (inst_rel_num_iff _ _ Hsg). exact Hr.
 Qed.
 
 (* instantiation with parameter-free values leaves no parameter in any (formerly symbolic) argument, at any depth
@@ -1968,6 +2106,15 @@ Example ex_nested_instantiated :
                           VTrf (TMul (TPar [112]) (TReg [113;48]))],
                          [([107], VList [VFlt (TDec 2 0); VInt 3])])) [4%Z]].
 Proof. vm_compute. reflexivity. Qed.
+(* nested includes: the values passed to an included template may be symbolic (parameters of the calling template);
+   the result then stays symbolic, and a sum of a parameter and a number is substituted as a whole *)
+Example ex_symbolic_include :
+  expand_include
+    (mkprog [115] [49] None [] None []
+       [mkop [71] (Some ([VSym (TAdd (TPar [112]) (TPar [114])); VSym (TPar [114])], [])) [0%Z]] [0%Z] [[112];[114]] [])
+    (mkop [115] (Some ([], [([112], VSym (TPar [113])); ([114], VInt 2)])) [4%Z])
+  = Ok [mkop [71] (Some ([VSym (TAdd (TPar [113]) (TDec 2 0)); VFlt (TDec 2 0)], [])) [4%Z]].
+Proof. vm_compute. reflexivity. Qed.
 End Examples.
 
 (* ================================================================== *)
@@ -1992,7 +2139,14 @@ Print Assumptions inst_ops_rel.
 Print Assumptions inst_args_closed.
 Print Assumptions inst_value_list.
 Print Assumptions inst_value_rel.
+Print Assumptions inst_value_rel_num.
+Print Assumptions subst_term_compose.
+Print Assumptions inst_value_compose.
+Print Assumptions close_kind_closed.
+Print Assumptions close_kind_closed_sg.
 Print Assumptions inst_vars_rel.
+Print Assumptions inst_ops_rel_num.
+Print Assumptions inst_vars_rel_num.
 Print Assumptions inst_value_pars_free.
 Print Assumptions inst_ops_pars_free.
 Print Assumptions inst_vars_pars_free.
@@ -2021,3 +2175,4 @@ Print Assumptions ex_include.
 Print Assumptions ex_template_unregisters.
 Print Assumptions ex_template_fresh.
 Print Assumptions ex_nested_instantiated.
+Print Assumptions ex_symbolic_include.
